@@ -579,3 +579,73 @@ def must_pass(ctx, block, targets=None):
     if targets is not None:
         succ_exits = [t for t in targets if t in c2.T.reach]
     return not succ_exits
+
+
+# ----------------------------------------------------------------------------- term-level inlining of small local functions (P12)
+
+
+def _is_pure_small(prog, body):
+    if body.kind != "fn" or len(body.blocks) > 80:
+        return False
+    for bi, t in body.calls():
+        nm = call_name(t) or ""
+        if nm.startswith(STORE_TYPES):
+            return False
+    return True
+
+
+def resolve_terms(prog, t, depth=3, _memo=None):
+    """rewrite inside term t:
+       ('call', <local pure fn>, args)        -> its return term with parameters bound (world-settled)
+       ('mut', prev, <local fn(&mut self,..)>, args) -> the final value of *self at return
+    so that constructors and &mut-self helpers become aggregates / field updates rules can read."""
+    from .mir import intern
+    if _memo is None:
+        _memo = {}
+    t = intern(t)
+    if not isinstance(t, tuple) or depth < 0:
+        return t
+    k = id(t)
+    if k in _memo:
+        return _memo[k]
+    _memo[k] = t
+    if t and isinstance(t[0], str):
+        if t[0] == "call":
+            args = tuple(resolve_terms(prog, a, depth, _memo) for a in t[2])
+            cb = _callee_body(prog, t)
+            out = None
+            if cb is not None and depth > 0 and _is_pure_small(prog, cb):
+                c = Ctx(cb, params={i + 1: a for i, a in enumerate(args)}).settle()
+                rt = c.T.return_term()
+                if not contains(rt, lambda s: s[0] in ("cycle", "undef")):
+                    out = resolve_terms(prog, rt, depth - 1, _memo)
+            if out is None:
+                out = ("call", t[1], args) + tuple(t[3:])
+        elif t[0] == "mut":
+            prev = resolve_terms(prog, t[1], depth, _memo)
+            args = tuple(resolve_terms(prog, a, depth, _memo) for a in t[3])
+            cb = prog.body(t[2])
+            out = None
+            if cb is not None and depth > 0 and _is_pure_small(prog, cb):
+                params = {1: prev}
+                for i, a in enumerate(args):
+                    params[i + 2] = a
+                c = Ctx(cb, params=params).settle()
+                finals = []
+                for bi in sorted(c.T.reach):
+                    if cb.blocks[bi]["term"]["k"] == "return":
+                        finals.append(c.T.place({"l": 1, "p": ["deref"], "s": "(*_1)"}, bi, len(cb.blocks[bi]["stmts"])))
+                if finals:
+                    out = resolve_terms(prog, Terms._phi(finals), depth - 1, _memo)
+            if out is None:
+                out = ("mut", prev, t[2], args)
+        elif t[0] == "field":
+            from .mir import field_of
+            out = field_of(resolve_terms(prog, t[1], depth, _memo), t[2])
+        else:
+            out = (t[0],) + tuple(resolve_terms(prog, x, depth, _memo) if isinstance(x, tuple) else x for x in t[1:])
+    else:
+        out = tuple(resolve_terms(prog, x, depth, _memo) if isinstance(x, tuple) else x for x in t)
+    out = intern(out)
+    _memo[k] = out
+    return out
